@@ -729,7 +729,7 @@ type HangGuard struct {
 func NewHangGuard(replay bool) *HangGuard {
 	h := &HangGuard{Short: 15 * time.Millisecond, Long: 3 * time.Second, confirmed: map[string]string{}}
 	if replay {
-		h.Short, h.Long = 0, 20*time.Second
+		h.Short, h.Long = 0, 4*time.Second
 	}
 	return h
 }
